@@ -1,6 +1,6 @@
 # Sizing and claim for C10 (see props/__init__.py)
 SPEC = {
-        "quick": {"rc_cases": 40000, "rc_procs": 8, "enum": True},
+        "quick": {"rc_cases": 150000, "rc_procs": 12, "enum": True},
         "thorough": {"rc_cases": 400000, "rc_procs": 8, "enum": True, "fuzz_secs": 240, "fuzz_workers": 8},
         "claim": {
             "category": "exploration",
